@@ -133,21 +133,30 @@ func (s *store) Consume(ctx context.Context, consumerName string, f func(uint64,
 		fd.Close()
 	}()
 
+	// the state file holds the offset of the next entry to hand over. The log
+	// can only be positioned on an entry that exists, so resume on the last
+	// entry handed over and skip it.
 	offset := Encoding.Uint64(stateOffset)
+	from := offset
+	if from > 0 {
+		from--
+	}
 	consumer := stream.NewConsumer(
 		stream.WithEOFBehaviour(stream.EOFBehaviourPoll),
-		stream.FromOffset(int64(offset)))
+		stream.FromOffset(int64(from)))
 	cursor := s.log.Reader()
 	s.maybeTruncate(offset)
 	return consumer.Consume(ctx, cursor, func(c context.Context, b stream.Batch) error {
 		for idx, record := range b.Records {
 			newOffset := b.FirstOffset + uint64(idx)
-
+			if newOffset < offset {
+				continue
+			}
 			err := f(newOffset, mustDecode(record))
 			if err != nil {
 				return err
 			}
-			offset = newOffset
+			offset = newOffset + 1
 			Encoding.PutUint64(stateOffset, offset)
 			s.maybeTruncate(offset)
 		}
